@@ -30,6 +30,23 @@ Theorem C13_known_bad_is_a_site : forall sch flt s o, known_bad sch flt s o = tr
 Proof. exact known_bad_sites. Qed.
 Print Assumptions C13_known_bad_is_a_site.
 
+(* ... and the named sites are all there is: TInconsistent (a dictionary / queue not in the shape the code asserts) plus the eight sites
+   recorded as findings, each of which has a refutation witness in Findings/C13.v - so for this model the findings list is complete *)
+Theorem C13_sites_complete : forall sch flt s o, known_bad sch flt s o = true ->
+  exists t, In t (o_taints (step sch flt s o)) /\ In t all_sites.
+Proof. exact sites_complete. Qed.
+Print Assumptions C13_sites_complete.
+
+(* many-to-many, both sides: x.tags = [t2] with t2 deleted fails after x has been removed from t1.aa; not known-bad, one closure to undo,
+   and by C13_atomic both x.tags and t1.aa are as before *)
+Example C13_nonvacuous_m2m :
+  let pre := [(None, ONew 0 1 [(5, AInt 0)]); (None, ONew 2 1 [(1, AObjs [0])]); (None, ONew 2 2 []); (None, OCommit); (None, ODelete 2)] in
+  let s := state_of_history sch_S1 pre in
+  raises sch_S1 None s (OSet 0 7 (AObjs [2])) /\ known_bad sch_S1 None s (OSet 0 7 (AObjs [2])) = false /\
+  match body sch_S1 None (OSet 0 7 (AObjs [2])) (mkctx s [] [] 0 0) with RErr EDeleted c => length (c_log c) = 1 | _ => False end /\
+  g_bool (o_state (step sch_S1 None s (OSet 0 7 (AObjs [2])))) (LItem 1 1 0) = true.
+Proof. vm_compute. split; [discriminate|]. repeat split; reflexivity. Qed.
+
 (* non-vacuity: a delete() that cascades to two children and is then refused because of a required dependent raises, is not
    known-bad, and has real work to undo (five closures) *)
 Example C13_nonvacuous :
